@@ -533,6 +533,9 @@ class Chopper:
         npulses:
             Number of pulses to rotate the chopper for.
         """
+        # An integer-typed pulse frequency must not be rounded to a whole number of
+        # the chopper's frequency unit below.
+        pulse_frequency = pulse_frequency.to(dtype='float64', copy=False)
         # Also checks that the chopper is in phase with the source.
         rotations_per_pulse = disk_chopper._source_phase_factor(pulse_frequency)
         frequency = abs(disk_chopper.frequency)
